@@ -543,8 +543,19 @@ fn oracle_combo<C: RangeCombo>(rng: &mut Rng, w: u32, s: u32, bps: &[(u32, Vec<u
         }
         note("C02", &format!("{} | pos | export", desc));
         let final_snap = coder.pos();
+        // the conversion `Vec::from(encoder)` hands out the same words as `into_compressed()` (every
+        // word of them: a trailing zero word is data, it is what protects the message from what follows)
+        let via_from: Vec<C::W> = Vec::from(coder.clone());
         let sealed_w: Vec<C::W> = coder.into_compressed().unwrap();
         let sealed = unwords(&sealed_w);
+        rep.eval("C06");
+        rep.eval("C11");
+        if via_from != sealed_w {
+            let t = format!("{} | Vec::from(encoder) => {} but into_compressed() gives {}", desc, show_list(unwords(&via_from)), show_list(sealed.clone()));
+            caps.fail(rep, "C06", &tag, t.clone());
+            caps.fail(rep, "C11", &tag, t.clone());
+            caps.fail(rep, "C02", &tag, t);
+        }
         let twin_sealed = unwords(&twin.into_compressed().unwrap());
         rep.eval("C08");
         if sealed != twin_sealed {
@@ -625,6 +636,38 @@ fn oracle_combo<C: RangeCombo>(rng: &mut Rng, w: u32, s: u32, bps: &[(u32, Vec<u
                     Ok(Err(t)) => caps.fail(rep, "C02", &tag, format!("{} | export | decoder over {}{} => {}", rt, names[kind as usize], msg_decs(&msg), t)),
                     Err(class) => caps.fail(rep, "C02", &tag, format!("{} | export | decoder over {}{} => {}", rt, names[kind as usize], msg_decs(&msg), class)),
                 }
+            }
+        }
+
+        // ---------------- C10 with a source that fails once: a read error at the j-th word is an error value,
+        // and decoding on afterwards (a caller that collects `Result`s) still never panics ----------------
+        if !msg.is_empty() {
+            use constriction::backends::FallibleIteratorReadWords;
+            let ws: Vec<C::W> = words::<C::W>(&payload);
+            let j = (s / w) as usize + rng.below(ws.len() as u128 + 2) as usize;
+            let line = format!("{} | export | decoder over an iterator whose read #{:x} fails once{}{}", rt, j, msg_decs(&msg), msg_decs(&msg));
+            note("C10", &line);
+            rep.eval("C10");
+            rep.count("C10.source_fails_once");
+            let res = guarded(|| {
+                let mut i = 0usize;
+                let wsv = ws.clone();
+                let src = std::iter::from_fn(move || {
+                    let k = i;
+                    i += 1;
+                    if k == j { Some(Err(())) } else { let k = if k > j { k - 1 } else { k }; wsv.get(k).copied().map(Ok) }
+                });
+                let mut d = match RangeDecoder::<C::W, C::S, _>::with_backend(FallibleIteratorReadWords::new(src)) { Ok(d) => d, Err(_) => return 0usize };
+                let mut errors = 0usize;
+                for (b, p, cdf, _) in msg.iter().chain(msg.iter()) {
+                    if let Some(o) = C::dec(&mut d, *b, *p, cdf) {
+                        if o.starts_with("readerr") || o.starts_with("err") { errors += 1; }
+                    }
+                }
+                errors
+            });
+            if let Err(class) = res {
+                caps.fail(rep, "C10", &tag, format!("{} => {} (decoding on after the read error must not panic)", line, class));
             }
         }
 
